@@ -129,6 +129,10 @@ def equipment_strategy(draw, flavour):
     if draw(st.integers(0, 3)) == 0:
         amp = next(a for a in eq['Edfa'] if a['type_variety'] == 'std_medium_gain')
         amp['other_name'] = ['std_medium_gain_bis', 'alias_mg']
+    # extra fibre types, among them a dispersion-compensating one (negative dispersion is legal in the library)
+    if draw(st.integers(0, 2)) == 0:
+        eq['Fiber'].append({'type_variety': 'NEGD', 'dispersion': draw(st.sampled_from([-1.0e-05, -2.0e-05, -4e-06])),
+                            'effective_area': 7.2e-11, 'pmd_coef': 1.265e-15})
     # transceivers: stock ones kept, plus generated libraries
     ntrx = draw(st.integers(1, 2))
     for i in range(ntrx):
@@ -322,11 +326,16 @@ def raman_world_strategy(draw):
                                              'length_units': 'km', 'loss_coef': 0.2, 'att_in': 0,
                                              'con_in': draw(st.sampled_from([0.5, 0.2])),
                                              'con_out': draw(st.sampled_from([0.5, 0.3]))},
-                                  'operational': {'temperature': 283, 'raman_pumps': [
-                                      {'power': draw(st.sampled_from([0.2, 0.1, 0.25])), 'frequency': 205e12,
-                                       'propagation_direction': 'counterprop'},
-                                      {'power': draw(st.sampled_from([0.2, 0.15])), 'frequency': 201e12,
-                                       'propagation_direction': 'counterprop'}]},
+                                  'operational': {'temperature': 283, 'raman_pumps': draw(st.sampled_from([
+                                      [{'power': 0.2, 'frequency': 205e12, 'propagation_direction': 'counterprop'},
+                                       {'power': 0.2, 'frequency': 201e12, 'propagation_direction': 'counterprop'}],
+                                      [{'power': 0.1, 'frequency': 205e12, 'propagation_direction': 'counterprop'},
+                                       {'power': 0.15, 'frequency': 201e12, 'propagation_direction': 'counterprop'}],
+                                      [{'power': 0.25, 'frequency': 203e12, 'propagation_direction': 'counterprop'}],
+                                      [],
+                                      [{'power': 0.001, 'frequency': 205e12, 'propagation_direction': 'counterprop'}],
+                                      [{'power': 0.15, 'frequency': 185e12, 'propagation_direction': 'counterprop'}],
+                                      [{'power': 0.1, 'frequency': 204e12, 'propagation_direction': 'coprop'}]]))},
                                   'metadata': _loc(x, k)})
                 else:
                     if k > 0 and draw(st.booleans()):
@@ -371,6 +380,7 @@ def multiband_world_strategy(draw):
         eq['Edfa'].append(dup)
     eq['Span'][0]['power_mode'] = draw(st.sampled_from([True, True, False]))
     eq['Span'][0]['EOL'] = draw(st.sampled_from([0, 0.5]))
+    eq['Transceiver'].append(draw(transceiver_strategy('trx1')))
     nsites = draw(st.integers(2, 3))
     sites = SITES[:nsites]
     links = [(i - 1, i) for i in range(1, nsites)]
@@ -385,17 +395,22 @@ def multiband_world_strategy(draw):
         connections.append({'from_node': f'trx {s}', 'to_node': f'roadm {s}'})
         connections.append({'from_node': f'roadm {s}', 'to_node': f'trx {s}'})
     bands = [{'f_min': 191.3e12, 'f_max': 196.0e12}, {'f_min': 187.0e12, 'f_max': 190.0e12}]
+    kinds = ['mb_no_design', 'mb_type_variety', 'mb_no_design', 'single', 'single_reduced']
     for (ia, ib) in links:
-        kind = draw(st.sampled_from(['mb_no_design', 'mb_type_variety', 'mb_no_design', 'single']))
-        for (x, y) in ((ia, ib), (ib, ia)):
+        kind0 = draw(st.sampled_from(kinds))
+        for d, (x, y) in enumerate(((ia, ib), (ib, ia))):
+            # the two directions of a link usually carry the same kind of amplifiers, but not always
+            kind = kind0 if d == 0 or draw(st.integers(0, 2)) > 0 else draw(st.sampled_from(kinds))
             a, b = sites[x], sites[y]
-            typ = 'Edfa' if kind == 'single' else 'Multiband_amplifier'
+            typ = 'Edfa' if kind.startswith('single') else 'Multiband_amplifier'
             mid_fused = draw(st.booleans())
 
-            def amp(uid):
+            def amp(uid, kind=kind, typ=typ, x=x):
                 el = {'uid': uid, 'type': typ, 'metadata': _loc(x)}
                 if kind == 'mb_type_variety':
                     el['type_variety'] = 'std_medium_gain_multiband'
+                if kind == 'single_reduced':
+                    el['type_variety'] = 'std_low_gain_reduced_band'
                 return el
             chain = [amp(f'booster {a}{b}'),
                      {'uid': f'fiber ({a} → {b})-0', 'type': 'Fiber', 'type_variety': 'SSMF',
